@@ -103,6 +103,13 @@ def run(ctx, chk, tier):
         t2d = N_(App("getitem", (Tt, Tup([Const(None), FULL]))) if trank == 1 else App("getitem", (Tt, Tup([Const(None), Const(None)]))))
         y2d = N_(App("getitem", (Y, Tup([FULL, Const(None)]))))
         A_, B_ = N_(App("getitem", (y2d, App("slice", (Const(None), Const(-1), Const(None)))))), N_(App("getitem", (y2d, App("slice", (Const(1), Const(None), Const(None))))))
+        # the same roles in the targets-first broadcast layout (y as a row (1, N), t as a column (T, 1)): which axis carries the targets is a
+        # private choice; the obligations are stated per layout
+        y2dB = N_(App("getitem", (Y, Tup([Const(None), FULL]))))
+        t2dB = N_(App("getitem", (Tt, Tup([FULL, Const(None)]))) if trank == 1 else App("getitem", (Tt, Tup([Const(None), Const(None)]))))
+        A_B = N_(App("getitem", (y2dB, Tup([FULL, App("slice", (Const(None), Const(-1), Const(None)))]))))
+        B_B = N_(App("getitem", (y2dB, Tup([FULL, App("slice", (Const(1), Const(None), Const(None)))]))))
+        LAYOUTS = {"points-first": (A_, B_, t2d, y2d), "targets-first": (A_B, B_B, t2dB, y2dB)}
         env_rank = {X: 1, Y: 1, Tt: trank}
         seen_cross = seen_fb = False
         for o in rets:
@@ -127,10 +134,10 @@ def run(ctx, chk, tier):
                     chk.violation("R17.1", Q, "%s:%s-rank" % (tag, kind), "rank %d value %s" % (r, show(e["value"], 200)), "rank 0 (all entries of a solution list are scalars)", ctx.where(Q))
                 if is_cross and not seen_cross:
                     seen_cross = True
-                    crossing_rules(ctx, chk, tag, e, inloop[-1], A_, B_, t2d, Tt)
+                    crossing_rules(ctx, chk, tag, e, inloop[-1], A_, B_, t2d, Tt, LAYOUTS)
                 if not is_cross and not seen_fb:
                     seen_fb = True
-                    check_fallback(ctx, chk, tag, e["value"], e["index"], o, y2d, t2d)
+                    check_fallback(ctx, chk, tag, e["value"], e["index"], o, y2d, t2d, LAYOUTS)
             # comprehension form: the fallback is an element of the returned list
             if not seen_fb:
                 from ..evalr import Lst
@@ -181,12 +188,21 @@ def run(ctx, chk, tier):
     chk.floor("R17.2", 2, "crossing predicates for array and scalar targets")
 
 
-def check_fallback(ctx, chk, tag, value, j, o, y2d, t2d):
+def check_fallback(ctx, chk, tag, value, j, o, y2d, t2d, layouts=None):
     x2d = App("getitem", (X, Tup([FULL, Const(None)])))
     am = App("argmin", (App("abs", (sub(y2d, t2d),)),), [("axis", Const(0))])
     want = App("getitem", (App("getitem", (x2d, am)), Tup([j, Const(0)])))
     from ..terms import subst as _subst
     want, value = _subst(want, {}), _subst(value, {}) if hasattr(value, "key") else value
+    if layouts and "targets-first" in layouts and not same(value, want):
+        # targets-first layout: the closest sample is searched along axis 1 of |y (1, N) - t (T, 1)| and read from the 1-d x
+        _a, _b, t2dB, y2dB = layouts["targets-first"]
+        amB = App("argmin", (App("abs", (sub(y2dB, t2dB),)),), [("axis", Const(1))])
+        for cand in (App("getitem", (App("getitem", (X, amB)), j)), App("getitem", (App("getitem", (App("getitem", (X, Tup([Const(None), FULL]))), Tup([Const(0), amB]))), j))):
+            cand = _subst(cand, {})
+            if same(value, cand):
+                want = cand
+                break
 
     def emptiness(c, taken):
         if isinstance(c, App) and c.fn == "not":
@@ -208,7 +224,7 @@ def check_fallback(ctx, chk, tag, value, j, o, y2d, t2d):
         chk.violation("R17.4", Q, tag + ":fallback", "%s under %s" % (show(value, 200), pc_text(o)[:120]), "%s iff the solution list of target j is empty" % show(want, 200), ctx.where(Q))
 
 
-def crossing_rules(ctx, chk, tag, e, loop, A_, B_, t2d, Tt):
+def crossing_rules(ctx, chk, tag, e, loop, A_, B_, t2d, Tt, layouts=None):
     it = loop[2]
     nz = None
     if isinstance(it, App) and it.fn == "zip" and len(it.args) == 2:
@@ -222,8 +238,19 @@ def crossing_rules(ctx, chk, tag, e, loop, A_, B_, t2d, Tt):
     mask = nz.args[0] if transposed else nz
     from ..terms import subst as _subst
     mask = _subst(mask, {})
-    if not transposed:
-        chk.violation("R17.2", Q, tag + ":order", "nonzero of the untransposed mask", "nonzero(crossing.T): per target, segment indices in increasing order", ctx.where(Q))
+    layout = "points-first"
+    if layouts:
+        keys = {a.key for a in atoms_of(mask)}
+        for nm, (a_, b_, t_, _y) in layouts.items():
+            if a_.key in keys and b_.key in keys:
+                layout = nm
+                A_, B_, t2d = a_, b_, t_
+    # np.nonzero lists the set positions in row-major order: the TARGET axis must come first, so that the solutions of one target are
+    # produced with increasing segment index
+    need_transposed = layout == "points-first"
+    if transposed != need_transposed:
+        chk.violation("R17.2", Q, tag + ":order", "nonzero of the %s mask in the %s layout" % ("transposed" if transposed else "untransposed", layout),
+                      "the target axis first (row-major order of np.nonzero): per target, segment indices in increasing order", ctx.where(Q))
     bad = []
     n_cross = 0
     try:
@@ -259,7 +286,7 @@ def crossing_rules(ctx, chk, tag, e, loop, A_, B_, t2d, Tt):
         return
     x1 = App("getitem", (App("getitem", (X, Tup([FULL, Const(None)]))), Tup([FULL, Const(0)])))
     y1 = App("getitem", (App("getitem", (Y, Tup([FULL, Const(None)]))), Tup([FULL, Const(0)])))
-    t1 = App("getitem", (t2d, Const(0)))
+    t1 = App("getitem", (t2d, Const(0))) if layout == "points-first" else App("getitem", (t2d, Tup([FULL, Const(0)])))
     xj, xj1 = App("getitem", (x1, sind)), App("getitem", (x1, add(sind, Const(1))))
     yj, yj1 = App("getitem", (y1, sind)), App("getitem", (y1, add(sind, Const(1))))
     tk = App("getitem", (t1, tind))
